@@ -125,7 +125,7 @@ fn main() {
             let fams: Vec<&str> = gets(&m, "family", "cx").split(',').collect();
             stages::rec_stages(m.contains_key("f32"), &fams, geti(&m, "count", 10) as u64, geti(&m, "seed", 1) as u64, geti(&m, "kmax", 3),
                 geti(&m, "max-edges", 60) as usize, geti(&m, "matrix", 40) as usize, geti(&m, "rid0", 1) as u64,
-                geti(&m, "enum-from", 0) as u64, geti(&m, "enum-stride", 1) as u64)
+                geti(&m, "enum-from", 0) as u64, geti(&m, "enum-stride", 1) as u64, m.contains_key("frames"))
         }
         "rec-stages-tri" => stages::rec_stages_tri(geti(&m, "n", 2), geti(&m, "l", 840), geti(&m, "from", 0) as usize, geti(&m, "stride", 1) as usize,
             geti(&m, "matrix", 40) as usize, geti(&m, "rid0", 1) as u64),
